@@ -131,12 +131,13 @@ type Enc struct {
 	preambleGhosts  bool
 	curFrameForSite *Frame
 	dynImpl         map[string]bool
+	recGhost        map[string]bool
 }
 
 func newEnc(P *Program, db *SpecDB, ti *TypeInfo) *Enc {
 	return &Enc{P: P, DB: db, TI: ti, declared: map[string]string{}, heapSort: map[string]string{}, strLits: map[string]string{},
 		usedContracts: map[string]int{}, inlined: map[string]int{}, unspecCalls: map[string]int{}, assumedUsed: map[string]int{},
-		writeLog: map[string]bool{}, globalRefs: map[string]int{}, maxInline: 6, dynImpl: map[string]bool{}}
+		writeLog: map[string]bool{}, globalRefs: map[string]int{}, maxInline: 6, dynImpl: map[string]bool{}, recGhost: map[string]bool{}}
 }
 
 // ---------- emission ----------
